@@ -19,9 +19,14 @@ def obligations(tier):
             obs.append(Ob(f"C19.one_op.instrument{p}", "CH", "harness.h_chart", "immutability", 1500, {"VF_ALLINSTR": 1, "VF_NPARTS": 10, "VF_PART": p}, funcs=fns,
                           bounds="all 10 instruments (one per partition)"))
         for p in range(9):
-            obs.append(Ob(f"C19.two_ops.first{p}", "CH", "harness.h_chart", "immutability2", 3000, {"VF_OP1": p}, funcs=fns, bounds="sequences of two operations, first kind fixed per partition"))
+            for q in ("0", "1,7,8", "2,3,4,5,6"):
+                obs.append(Ob(f"C19.two_ops.first{p}.then[{q}]", "CH", "harness.h_chart", "immutability2", 3000, {"VF_OP1SET": str(p), "VF_OP2SET": q}, funcs=fns,
+                              bounds="sequences of two operations, kinds fixed per partition, all argument cases symbolic"))
     else:
-        obs.append(Ob("C19.two_ops.sub", "CH", "harness.h_chart", "immutability2", 1500, {"VF_OP1": 1}, funcs=fns, bounds="subscript by any instrument followed by any operation"))
+        obs.append(Ob("C19.two_ops.lookups", "CH", "harness.h_chart", "immutability2", 1500, {"VF_OP1SET": "1,8", "VF_OP2SET": "1,5,8"}, funcs=fns,
+                      bounds="subscript / membership by an instrument followed by subscript / comparison+hash / membership"))
+        obs.append(Ob("C19.two_ops.then_nps", "CH", "harness.h_chart", "immutability2", 1500, {"VF_OP1SET": "4,6", "VF_OP2SET": "0"}, funcs=fns,
+                      bounds="rendering / derived attributes followed by a rate query (all argument forms)"))
     return obs
 
 
